@@ -1470,7 +1470,11 @@ func (a *analyzer) resolveTemplateSymbol(node *lisp.LVal, scope *Scope, currentP
 	}
 
 	sym := scope.LookupInPackage(name, currentPkg)
-	if sym != nil {
+	// A symbol written literally in a template is looked up where the macro
+	// is EXPANDED, never in the macro body: a parameter or local of the body
+	// with the same spelling is a different symbol.  Only a global can be
+	// what the template means.
+	if sym != nil && sym.Scope != nil && sym.Scope.Kind == ScopeGlobal {
 		sym.References++
 		a.result.References = append(a.result.References, &Reference{
 			Symbol: sym,
